@@ -35,9 +35,12 @@ def registry_events(states, seed):
     rnd = random.Random(seed)
     tr = arith.ArithTrace()
     fn = {"sum": ag.grouped_sum, "mean": ag.grouped_mean, "max": ag.grouped_max, "min": ag.grouped_min, "any": ag.grouped_any, "all": ag.grouped_all}
-    for st in states:
+    BIG = [100300, 7, 52017, 1001, 3, 200001, 64, 25000]      # survey-style labels: large, not monotone, far above the row count (the grouped_* functions allocate one slot per label value, so not arbitrarily large)
+    for si, st in enumerate(states):
         vals = [v - 1 for v in st["col"]]
         ids = np.array(st["ids"], dtype=np.int64)
+        if si % 2 == 1:   # the specification only uses equality of group labels: every second state is run with large sparse labels
+            ids = np.array([BIG[g % len(BIG)] + 1000 * (g // len(BIG)) for g in st["ids"]], dtype=np.int64)
         n = len(vals)
         variants = {
             "sum": [np.array(vals, dtype=float) * 1.1, np.array(vals, dtype=np.int64), np.array(vals) > 0],
